@@ -19,31 +19,35 @@ Models (C15/Model.v)
   (C) _convenience.rename_values: dedup of pairs, grouping by graph, validation, pops, renames, re-adds, each
       container operation with the exceptions it can raise (GraphInitializers.__setitem__/__delitem__).
 
-Theorems (Property.v)
+Theorems (Property.v; 18, all closed)
   (A) full: C15_gen_fuel_suffices, C15_fresh, C15_fresh_node (for EVERY history of register calls with arbitrary
       explicit names: a generated name is outside the seen set before the call, outside the initial set, and
       differs from every name of its kind registered or generated earlier), C15_monotone, C15_explicit_kept,
       C15_graph_adding / C15_graph_history (lifting to Graph(...)/append/extend/insert_*, also when the call
-      raises half way: explicit names kept, names given to unnamed objects are outside the authority's seen set
-      before the operation; the authority changes by register calls only, so C15_fresh covers the graph's life).
-  (B) C15_fix_fuel_suffices (full); C15_fix_total_partial (only ValueError of the initializer guard can end a
-      run - scope stacks never underflow, balanced events for every nesting by a custom induction; models without
-      initializers are never rejected; MISSING: fresh name never equals a key created earlier in the same run);
-      C15_fix_keeps_unique_partial (one _fix_graph_names run, ANY graph incl. unsorted/nested: a traversal-met
-      value with a non-empty name no other value carries keeps it; MISSING: node names, initializer-only values,
-      composition over functions); C15_fix_post_partial (the per-value step: non-empty name outside the scope's
-      used set, recorded, seen, nothing else touched, changed names avoid all pre-existing names; MISSING: the
-      assembly into per-graph distinctness under the well-scoped hypothesis); C15_fix_post_unsorted_refuted
-      (the statement without that hypothesis is false: known finding); the two former refutations are now
-      C15_fix_total_witness_fixed / C15_fix_keeps_unique_witness_fixed.
-      C15_fix_only_names has no theorem: in this model the only state of the pass IS names + initializer
-      dictionaries (structure is an immutable input), so the statement would hold by construction; it is checked
-      on the implementation by a structural snapshot in the oracle.
+      raises half way).
+  (B) all full for the fixed code (25cf9b5), under the hypotheses named in Property.v
+      (WF0 = clause I5 of the C01 invariant; closed_run = every initializer the traversal meets belongs to a graph it
+      enters; well_scoped = every value is first met in its own graph's scope or an enclosing one; NoDup nodes):
+      C15_fix_fuel_suffices;
+      C15_fix_total (whole pass never raises, returns a well-formed state, same initializer sets; invariant
+      ProofsB4.TInv: every key of an entered graph is the value's original name (pre-scanned) or <orig>_<j>,
+      suffixing is injective in both arguments) + C15_fix_total_unclosed_refuted (closedness is needed: known
+      finding) + C15_fix_total_witness_fixed;
+      C15_fix_post (one _fix_graph_names run, any nesting: no raise, all names non-empty, for EVERY nested graph
+      the own values + visible enclosing values pairwise distinct, node names pairwise distinct per graph,
+      initializers keyed by current names; proof: a name-free ghost run records per scope whose names the used
+      set holds (ProofsB6/B7), a naive run records what each scope owns, on well-scoped traversals naive <= ghost
+      (ProofsB8), and the naive scopes are exactly the nested graphs (ProofsB12/B13, custom induction))
+      + C15_fix_post_unsorted_refuted (the scoping hypothesis is needed: known finding) + Example ex_sorted_hyps;
+      C15_fix_keeps_unique / C15_fix_keeps_unique_node (whole pass: main graph and functions meeting disjoint
+      values/nodes; the value may be met anywhere incl. only through an initializer dictionary; uniqueness only
+      among what its graph's run meets) + C15_fix_keeps_unique_witness_fixed;
+      C15_fix_only_names (the model state carries an opaque payload per value and per node fed from the
+      implementation and compared afterwards; unchanged whatever the outcome; initializer sets unchanged).
   (C) full: C15_rename_all_or_nothing (RInv = initializers keyed by names + flags consistent; Raise => state
       literally unchanged; Ok => every pair applied, other names unchanged, RInv again, same initializer sets,
       same flags).  Example ex_state_RInv / ex_swap show the hypothesis is satisfiable and non-trivial.
-  ck.level = "proof": the principal theorems of (A) and (C) are proved at full strength; (B)'s principal
-  post-condition is partial (see above) and one clause is refuted on the code (known finding).
+  ck.level = "proof".
 
 Readings of the English (weaker reading taken where ambiguous)
   * "never equal any name that graph has registered or assigned before": per kind (value names against value
@@ -58,7 +62,7 @@ Readings of the English (weaker reading taken where ambiguous)
   * values "within a graph": its inputs, initializers and the outputs of its own nodes.
   * Function bodies carry no initializers (FunctionProto cannot): not generated; NameFixPass skips them.
 
-Tie (every run; quick ~30 s): (A) 260 histories x <=30 ops on a real ir.Graph (ctor with inputs/initializers,
+Tie (every run; quick ~30 s; part B also compares the non-name payload token of every value and node): (A) 260 histories x <=30 ops on a real ir.Graph (ctor with inputs/initializers,
   new nodes with explicit/None/generated-looking names, append/extend/insert_before/insert_after incl. foreign
   nodes and re-adding, remove, renames) - outcome and changed/touched names after every op + all names at the
   end vs grun; (B) 420 generated models (nested subgraphs via GRAPH/GRAPHS attributes, functions, missing /
@@ -76,12 +80,16 @@ Findings (known_findings.d/C15.json)
   fixed 25cf9b5  namefix-raises-initializer-collision   inputs [w], initializers [w, w_1] -> ValueError
   fixed 25cf9b5  namefix-renames-unique-name            inputs x, x, x_1 -> x, x_1, x_1_1
                  (my proposed_fixes/C15-namefix-reserve-existing-names.diff, committed unchanged; corpus/C15/b-*.json)
+  known          namefix-unclosed-initializer-capture   a function body reads an initializer `a` of the main graph whose
+                 initializers are a, a_1 (not valid ONNX): the run over the function renames it to a_1 without having
+                 pre-scanned the main graph's keys -> ValueError (C15_fix_total_unclosed_refuted).
   known          namefix-unsorted-outer-capture         a subgraph reads an outer value produced by a later node:
                  two values of the outer graph keep the same name, modified=False.  A repair (name all node
                  outputs of a graph when it is entered) changes the numbering of fresh names in sorted graphs and
                  was not proposed.
 
-Mutants tried in a scratch worktree (VERIF_REPO), quick tier, seed 0; "oracle X" = concrete replay from part X
+Mutants tried in a scratch worktree (VERIF_REPO), quick tier, seed 0, all re-run against /repo 6138197 (after fixes
+25cf9b5 and dff454e) with the full-strength theorems in place; "oracle X" = concrete replay from part X
   M1  _unique_value_name returns the first candidate without the seen test     VIOLATION (oracle A)
   M2  register_or_name_node records only generated names                        VIOLATION (oracle A)
   M3  enter_graph starts the new scope empty instead of a copy of the parent    VIOLATION (oracle B: shadow/dup)
@@ -93,7 +101,9 @@ Mutants tried in a scratch worktree (VERIF_REPO), quick tier, seed 0; "oracle X"
   M10 rename_values forgets seen_targets[name] = value                          VIOLATION (oracle C: initializer lost)
   M11 _process_value re-processes seen values that are not graph inputs         VIOLATION (oracle B: unique_lost)
   M12 insert_before skips _set_node_graph_to_self_and_assign_names              VIOLATION (oracle A: left unnamed)
+  (model A follows fix dff454e: extend/insert_* validate every node before naming any)
   M13 (after the fix) reserved names ignored again in the while condition       VIOLATION (oracle B: raises / unique_lost)
+  M14 (after the fix) the pre-scan forgets the initializer keys                 VIOLATION (oracle B: raises)
   an equivalent mutant (renaming only the non-initializers before the pops) is correctly not reported.
 """
 
@@ -299,8 +309,10 @@ def run_history(ops: list[dict]) -> dict:
             for i in range(len(values)):
                 if bv[i] is not None and av[i] != bv[i]:
                     bad.append(f"{how}: explicit value name {bv[i]!r} changed to {av[i]!r}")
-            # nodes the graph has registered: all of them, or those before the first foreign node when it raised
-            processed = chosen if ok else chosen[:foreign_at[0]] if foreign_at else []
+            # nodes the graph has certainly registered: all of them when the call succeeded.  After a raise nothing is
+            # assumed registered (since fix dff454e nothing is; before it, the nodes before the first foreign one were),
+            # but a name given to an unnamed object must still be fresh and counts as seen from then on.
+            processed = chosen if ok else [i for i in chosen if bn[i] is None and nodes[i].name is not None]
             for i in processed:
                 n = nodes[i]
                 if bn[i] is None:
@@ -457,6 +469,12 @@ def gen_model(rng, small: bool = False) -> dict:
 
     main = gen_graph(0, [], False, [])
     funcs = [gen_graph(0, [], True, []) for _ in range(rng.choice([0, 0, 1, 2] if not small else [0, 0, 1]))]
+    if funcs and main["inits"] and rng.random() < 0.06:
+        # not valid ONNX (function bodies are closed): a function node reads an initializer of the main graph
+        for f in funcs:
+            if f["nodes"]:
+                f["nodes"][0]["ins"].append(rng.choice(main["inits"]))
+                break
     return {"main": main, "funcs": funcs, "vnames": st["vnames"], "nnames": st["nnames"],
             "init_of": {str(k): v for k, v in st["init_of"].items()}}
 
@@ -568,12 +586,27 @@ def run_namefix(spec: dict) -> dict:
         msg = str(e)
         same_model = True
     after = _structure(spec, values, nodes, graphs)
+    # payload tokens: everything of a value / node that is not a name, as a small integer (0 = never seen before)
+    table: dict = {}
+
+    def tok(x, add):
+        key = json.dumps(x, default=str, sort_keys=True)
+        if key not in table:
+            if not add:
+                return 0
+            table[key] = len(table) + 1
+        return table[key]
+    vx0 = [tok(("v", before["values"][i]), True) for i in range(len(values))]
+    nx0 = [tok(("n", before["nodes"][i]), True) for i in range(len(nodes))]
+    vx1 = [tok(("v", after["values"][i]), False) for i in range(len(values))]
+    nx1 = [tok(("n", after["nodes"][i]), False) for i in range(len(nodes))]
     vh = {id(v): k for k, v in values.items()}
     inits = {}
     for gid in sorted(graphs):
         inits[gid] = [(k, vh[id(v)]) for k, v in graphs[gid].initializers.items()]
     return {"err": err, "msg": msg, "modified": modified, "vn": [values[i].name for i in range(len(values))],
             "nn": [nodes[i].name for i in range(len(nodes))], "inits": inits, "struct_same": before == after,
+            "vx0": vx0, "nx0": nx0, "vx1": vx1, "nx1": nx1,
             "same_model": same_model}
 
 
@@ -632,6 +665,24 @@ def ill_scoped(spec) -> bool:
     for top in [spec["main"]] + spec["funcs"]:
         walk(top, set())
     return bad[0]
+
+
+def unclosed(spec) -> bool:
+    """True when a top-level traversal (main graph or a function body) meets an initializer of a graph it does not
+    enter (e.g. a function body reading an initializer of the main graph) - outside the hypothesis of C15_fix_total."""
+    init_of = {int(k): v for k, v in spec["init_of"].items()}
+    for top in [spec["main"]] + spec["funcs"]:
+        entered, met = set(), set()
+        for gs in _graphs_of(top):
+            if not gs["isfunc"]:
+                entered.add(gs["gid"])
+            met.update(gs["ins"], gs["outs"])
+            for n in gs["nodes"]:
+                met.update(v for v in n["ins"] if v is not None)
+                met.update(n["outs"])
+        if any(v in init_of and init_of[v] not in entered for v in met):
+            return True
+    return False
 
 
 def oracle_namefix(spec: dict, obs: dict) -> list[dict]:
@@ -704,7 +755,7 @@ def classify_namefix(spec: dict, obs: dict, bad: list[dict]) -> dict[str, list[d
     for b in bad:
         key = ""
         if b["kind"] == "raises" and "ValueError" in b["detail"] and "Cannot rename initializer" in b["detail"]:
-            key = "namefix-raises-initializer-collision"
+            key = "namefix-unclosed-initializer-capture" if unclosed(spec) else "namefix-raises-initializer-collision"
         elif b["kind"] in ("unique_lost", "unique_lost_node") and b.get("taken_by"):
             # the unique name was handed out as a fresh name to an object visited earlier
             orig = spec["vnames"] if b["kind"] == "unique_lost" else spec["nnames"]
@@ -739,14 +790,16 @@ def b_case_term(spec: dict, obs: dict) -> str:
         for gs in _graphs_of(top):
             init0[gs["gid"]] = [(spec["vnames"][v], v) for v in gs["inits"]]
     nv, nn = len(spec["vnames"]), len(spec["nnames"])
-    exp = "(%s, %s, %s, %s, %s)" % (
+    exp = "(%s, %s, %s, %s, %s, %s, %s)" % (
         copt(obs["err"]), cbool(bool(obs["modified"])), clist(cname(x) for x in obs["vn"]),
-        clist(cname(x) for x in obs["nn"]), _cinits(obs["inits"]))
-    return "((%s), %s, %s, %s, %s, %s, %s, %s)" % (
+        clist(cname(x) for x in obs["nn"]), _cinits(obs["inits"]), cNl(obs["vx1"]), cNl(obs["nx1"]))
+    return "((%s), %s, %s, %s, %s, %s, %s, %s, %s, %s)" % (
         _cgraph(spec["main"]), clist("(" + _cgraph(f) + ")" for f in spec["funcs"]),
         clist(cpair(cN(i), cname(x)) for i, x in enumerate(spec["vnames"])),
         clist(cpair(cN(i), cname(x)) for i, x in enumerate(spec["nnames"])),
-        _cinits(init0), cNl(range(nv)), cNl(range(nn)), exp)
+        _cinits(init0), cNl(range(nv)), cNl(range(nn)),
+        clist(cpair(cN(i), cN(x)) for i, x in enumerate(obs["vx0"])),
+        clist(cpair(cN(i), cN(x)) for i, x in enumerate(obs["nx0"])), exp)
 
 
 def b_cases_text(cases: list[tuple[dict, dict]]) -> str:
@@ -1065,6 +1118,8 @@ def part_b(ck, n_models: int, corpus: list) -> tuple[list, list]:
             ck.hist("B_shape", "with_functions")
         if ill_scoped(spec):
             ck.hist("B_shape", "ill_scoped")
+        if unclosed(spec):
+            ck.hist("B_shape", "unclosed")
         bad = oracle_namefix(spec, obs)
         for b in bad:
             ck.hist("B_oracle_failures", b["kind"])
@@ -1173,11 +1228,10 @@ def run(ck) -> None:
     ck.assumptions += ["CPython 3.12 dict insertion order", "values/nodes are ir.Value/ir.Node, names are str or None"]
     ck.coverage["rule"] = ("A: histories in which the authority generated >= 2 names; B: models with duplicated/missing names "
                            "or nested scopes that the pass modified; C: assignments that touch an initializer")
-    ck.notes.append("level=proof: C15_fresh* (A) and C15_rename_all_or_nothing (C) are proved at full strength for all "
-                    "histories/assignments; for NameFixPass (B) C15_fix_fuel_suffices is full, C15_fix_total_partial, "
-                    "C15_fix_keeps_unique_partial and C15_fix_post_partial are partial (what is missing is stated beside each "
-                    "theorem in Property.v) and C15_fix_post without the well-scoped hypothesis is refuted on the code "
-                    "(known finding namefix-unsorted-outer-capture); the tie and the oracle cover the full statement by sampling")
+    ck.notes.append("level=proof: all principal theorems are proved at full strength: C15_fresh* (A), C15_fix_total / "
+                    "C15_fix_post / C15_fix_keeps_unique(_node) / C15_fix_only_names (B, for the code after fix 25cf9b5, under "
+                    "the hypotheses WF0 / closed_run / well_scoped / NoDup nodes stated in Property.v, each shown necessary by a "
+                    "_refuted witness that is a known finding) and C15_rename_all_or_nothing (C)")
     ck.prove()
     corpus = _load_corpus()
     q = not ck.thorough
